@@ -233,6 +233,8 @@ func c15Inotify(a *An) *inotifyTables {
 	w := a.walk(addWith)
 	vi := indexVisits(w)
 	var req *extracted
+	var reqV ssa.Value
+	var reqC *Ctx
 	var noFollow []Row
 	for _, v := range w.Visits {
 		call, ok := v.Instr.(*ssa.Call)
@@ -260,6 +262,7 @@ func c15Inotify(a *An) *inotifyTables {
 				continue
 			}
 			req = &extracted{fn: rc.Fn, rows: rows}
+			reqV, reqC = rv, rc
 		}
 	}
 	if req == nil {
@@ -290,6 +293,83 @@ func c15Inotify(a *An) *inotifyTables {
 	tableOb(a, "C15.inotify", "request("+shortFn(req.fn)+")", "requested Op -> inotify flags: exactly the documented table for all 2^9 operation sets",
 		req, wantReq, maskName(opN), maskName(inN), nil)
 	res.request = req.table
+	// what actually reaches the kernel: the mask argument of every inotify_add_watch below AddWith is the request
+	// chain judged above, OR-ed with nothing but the flags recorded in an existing entry and IN_MASK_ADD
+	if reqV != nil {
+		allowedConst := inBy["IN_MASK_ADD"]
+		for _, v := range syscallVisits(a, w, "InotifyAddWatch") {
+			call := v.Instr.(*ssa.Call)
+			if len(call.Call.Args) < 3 {
+				continue
+			}
+			var extra uint64
+			var odd []string
+			seen := map[cv]bool{}
+			var rec func(c *Ctx, x ssa.Value, depth int)
+			rec = func(c *Ctx, x ssa.Value, depth int) {
+				x = stripConv(x)
+				rv, rc := c.resolve(x)
+				rv = stripConv(rv)
+				if rv == reqV && rc == reqC {
+					return // the request chain itself
+				}
+				key := cv{rc, rv}
+				if seen[key] || depth > 30 {
+					return
+				}
+				seen[key] = true
+				switch t := rv.(type) {
+				case *ssa.Const:
+					if k, ok := constUint(t); ok {
+						extra |= k
+						return
+					}
+				case *ssa.BinOp:
+					if t.Op == token.OR {
+						rec(rc, t.X, depth+1)
+						rec(rc, t.Y, depth+1)
+						return
+					}
+				case *ssa.Phi:
+					for _, e := range t.Edges {
+						rec(rc, e, depth+1)
+					}
+					return
+				case *ssa.UnOp:
+					if t.Op == token.MUL {
+						addr, actx := rc.resolve(t.X)
+						if al, ok := addr.(*ssa.Alloc); ok {
+							for _, st := range cellStores(al) {
+								sc := rc
+								if st.Parent() == al.Parent() {
+									sc = actx
+								}
+								rec(sc, st.Val, depth+1)
+							}
+							// a parameter spilled into a cell has no store: look at the binding of the parameter it was
+							// initialised from (go/ssa stores the parameter into the cell explicitly, so nothing more here)
+							return
+						}
+						if fa, ok := t.X.(*ssa.FieldAddr); ok {
+							if f := fieldOf(fa); f != nil && isUintType(f.Type()) {
+								if n, ok := deref(fa.X.Type()).(*types.Named); ok && n.Obj().Pkg() == a.P.MainTy {
+									return // flags recorded in an entry of the tables (what was requested before)
+								}
+							}
+						}
+					}
+				}
+				odd = append(odd, stripIDs(rc.path(rv)))
+			}
+			rec(v.Ctx, call.Call.Args[2], 0)
+			okk := extra&^allowedConst == 0 && len(odd) == 0
+			wit := "request chain | recorded flags | IN_MASK_ADD"
+			if !okk {
+				wit = sprintf("also OR-ed into the mask: constants %s; other values %s", maskName(inN)(extra&^allowedConst), fmtList(odd))
+			}
+			a.R.ob("C15.inotify", "request:mask-passed-to-kernel@"+shortFn(call.Parent()), "the mask handed to inotify_add_watch is the request chain, the flags already recorded for the path, and IN_MASK_ADD - nothing else is asked of the kernel", a.P.instrPos(call), okk, wit)
+		}
+	}
 	nfOK := len(noFollow) == 1 && noFollow[0].K == inBy["IN_DONT_FOLLOW"]
 	a.R.ob("C15.inotify", "request:noFollow", "the noFollow option adds IN_DONT_FOLLOW and nothing else", a.P.pos(req.fn.Pos()), nfOK, sprintf("%d row(s) guarded by noFollow", len(noFollow)))
 	// cross-table consistency (derived from the extracted tables, not the frozen ones)
